@@ -1,5 +1,6 @@
 import Pandora.Drv.Util
 import Pandora.Model.C12
+import Pandora.Model.C12Pool
 import Pandora.Spec.C12
 
 /-
@@ -117,6 +118,55 @@ def replay (perinst : Bool) (o : Obs) : St :=
     let s := run c s (envEvents perinst o)
     run c s [.wait { ctxDone := s.startCtxDone, tok := s.toks.head?, timerWins := true } true 0]
 
+/-! the same history through the POOL layer (`Model/C12Pool`): every observed exit becomes the pass of `instance.Run` that
+produces it (refused ammo / `Left() == 0` / context done) with its result received at once by the await loop, the end of
+the shared RPS schedule becomes a pass whose `Wait` finds no token (it runs the finish callback), results of failed
+creations are received, and finally the start result.  Predicted: `checkAllInstancesAreFinished` went through with
+`awaited` = … (the pool's log line "All instances runs awaited."). -/
+
+def liftEv (perinst : Bool) (p : PSt) : Event → List PEvent
+  | .instanceExit id .ammoEnd => [.iter id { ammoOk := false } false false]
+  | .instanceExit id .scheduleEnd =>
+      if perinst || p.base.sharedRpsDone then [.iter id { left := 0 } false false] else []
+  | .instanceExit id .cancelled => [.iter id { ctxDone := true } true false]
+  | .instanceExit id .error => [.panic id]
+  | .outOfAmmoResult => []      -- the reaction of the await loop to the result it has just received
+  | .rpsFinished => match p.base.running.head? with
+      | some id => [.iter id { waitOk := false } false true]
+      | none => []
+  | ev => [.loop ev]
+
+/-- lift and run abstract events; every result in flight is received at once -/
+def poolRunLift (c : Cfg) (perinst : Bool) (p : PSt) (evs : List Event) : PSt :=
+  evs.foldl (fun p ev =>
+    let p := poolRun c p (liftEv perinst p ev)
+    poolRun c p (List.replicate p.pending.length (.recvRun 0))) p
+
+def poolReplay (perinst : Bool) (o : Obs) : PSt :=
+  let c : Cfg := { perInstance := perinst }
+  let attempts := o.guns.length
+  let ids := o.binds.map (·.1)
+  let waitOf (j : Nat) : Event :=
+    let tok := o.toks[j]?.getD 0
+    let pick := o.picks[j]?.getD tok
+    let ret := max pick tok
+    let created := match o.binds.find? (·.1 == j) with | some b => b.2 | none => o.guns[j]?.getD ret
+    .wait { ctxDone := false, tok := some tok, pick := pick, now := pick, arm := pick, ret := ret, timerWins := true }
+      (ids.contains j) (created - ret).toNat
+  let starts := (List.range attempts).flatMap fun j => [waitOf j, .timerFire]
+  let base := match o.toks.head?, o.ctoks.head? with | some t0, some c0 => t0 - c0 | _, _ => 0
+  let full := o.toks ++ (o.ctoks.drop o.toks.length).map (· + base)
+  let p := poolRunLift c perinst (PSt.init full) starts
+  let p :=
+    if o.toks.length > attempts then
+      let p := poolRunLift c perinst p [waitOf attempts]
+      let p := poolRunLift c perinst p (envEvents perinst o)
+      poolRunLift c perinst p [.wakeCancelled]
+    else
+      let p := poolRunLift c perinst p (envEvents perinst o)
+      poolRunLift c perinst p [.wait { ctxDone := p.base.startCtxDone, tok := p.base.toks.head?, timerWins := true } true 0]
+  poolRun c p [.recvStart]
+
 def natList (l : List Nat) : String := ",".intercalate (l.map toString)
 
 /-- one pool: (model observation, verdict) -/
@@ -125,6 +175,11 @@ def handlePool (input impl : String) : String × String :=
   | some parts, some o =>
     let perinst := getS (parseKV input) "perinst" == "1"
     let s := replay perinst o
+    let ps := poolReplay perinst o
+    -- the pool layer must have done to the abstract state what the abstract replay did (refinement), else predict nonsense
+    let agree := decide (ps.base.started = s.started) && decide (ps.base.running.length = s.running.length) &&
+      ps.base.phase == s.phase
+    let allawaited : Int := if !agree then -2 else if ps.poolCancelled then ps.aw.awaited else -1
     -- the model's number of instances: every token released `margin` before the first cause, none released `margin` after it
     let (lo, hi) := kBounds perinst o
     -- (not when the harness itself was being scheduled badly: its heartbeat overslept by more than `jitterMax`)
@@ -143,6 +198,7 @@ def handlePool (input impl : String) : String × String :=
       else if a == "starterr" then (if o.starterr == "?" then s!"starterr={b}" else s!"starterr={starterr}")
       else if a == "ids" then s!"ids={natList mids}"
       else if a == "running" then s!"running={s.running.length}"
+      else if a == "allawaited" then s!"allawaited={allawaited}"
       else s!"{a}={b}")
     let v := judge parts perinst o
     let v := if v == "ok" && !calm then "skip:inconclusive-harness-scheduled-badly"
